@@ -5,6 +5,7 @@ import (
 	"go/constant"
 	"go/token"
 	"go/types"
+	"os"
 	"strings"
 
 	"golang.org/x/tools/go/ssa"
@@ -452,6 +453,12 @@ func (c *Ctx) signEFIVariableRules() {
 		bad = append(bad, "CertData is not set")
 	} else {
 		sl := dv.sliceDeep(certData.v, certData.fr)
+		if os.Getenv("VCHECK_DEBUG") == "i5" {
+			fmt.Fprintf(os.Stderr, "I5 certData %s in %s; slice %d values; parse=%d sign=%v\n", certData.v, certData.fr, len(sl), len(ir.CallsIn(sl, M+"/pkcs7.ParseContentInfo")), sl[sign])
+			for x := range sl {
+				fmt.Fprintf(os.Stderr, "   %T %s\n", x, x)
+			}
+		}
 		if len(ir.CallsIn(sl, M+"/pkcs7.ParseContentInfo")) == 0 || !sl[sign] {
 			bad = append(bad, "CertData is not the SignPKCS7 result with the outer ContentInfo stripped (ParseContentInfo)")
 		} else {
